@@ -257,6 +257,25 @@ def disk_case(case, sess: Session):
             open(p_full, "wb").write(raw.split(b"\n", 1)[0] + b"\n")
         elif cond == "array_json":
             open(p_full, "wb").write(b'{"schema":"snapshot:v1","mode":"full","etag_to":"A","codec":"none","level":0}\n[1,2,3]')
+        if cond == "present" and case.get("next") is not None:
+            # a chain: the third snapshot is requested as a delta of B, which exists only as a delta file itself (no
+            # snapshot-B.full): whatever the writer decides to write must read back as the third payload
+            nxt = case["next"]
+            try:
+                with contextlib.redirect_stderr(err):
+                    logging.disable(logging.CRITICAL)
+                    try:
+                        p_c, wd_c = write_snapshot_auto(d, etag_from="B", etag_to="C", payload=nxt, delta_mode=True)
+                        got_p = read_snapshot(path=p_c)
+                        got_r = read_snapshot(root=d, etag_to="C")
+                    finally:
+                        logging.disable(logging.NOTSET)
+                sess.count("chain_third_snapshots")
+                want = canon(json.loads(json.dumps(nxt)))
+                if canon(got_p) != want or canon(got_r) != want:
+                    sess.violation("disk:chain:third-snapshot-does-not-read-back", case, {"wrote_delta": wd_c, "by_path": got_p, "by_etag": got_r})
+            except Exception as e:
+                sess.violation("disk:chain:raises", case, {"exc": type(e).__name__, "msg": str(e)[:200]})
         for how in ("path", "root"):
             try:
                 with contextlib.redirect_stderr(err):
@@ -322,11 +341,13 @@ def _disk_chunk(args):
     rng = random.Random(f"{PID}-d-{seed}-{idx}")
     for i in range(n):
         b = rand_obj(rng)
-        while not b:
+        while not b and rng.random() < 0.7:  # an empty object is a legal baseline payload (kept in a minority of cases)
             b = rand_obj(rng)
-        c = mutate(rng, b)
-        cond = BASE_CONDS[(i + idx) % len(BASE_CONDS)]
-        case = {"kind": "disk", "base": b, "cur": c, "cond": cond, "cut": rng.randint(0, 10 ** 6)}
+        c = mutate(rng, b) if b else rand_obj(rng)
+        cond = BASE_CONDS[(i + idx) % len(BASE_CONDS)] if i % 3 else "present"
+        case = {"kind": "disk", "base": b, "cur": c, "cond": cond, "cut": rng.randint(0, 10 ** 6), "next": mutate(rng, c) if rng.random() < 0.6 else None}
+        if not b:
+            sess.count("disk_cases_with_empty_baseline_payload")
         disk_case(case, sess)
         sess.case(("d", canon(b), canon(c), cond, case["cut"]), nontrivial=(canon(b) != canon(c)),
                   sample=case if i < 1 and idx < 2 else None)
@@ -352,7 +373,7 @@ def main(tier: str, seed: int):
         nt = check_pair(b, c, sess, compute_delta, apply_delta)
         sess.case(("dir", canon(b), canon(c)), nontrivial=nt, sample={"base": b, "cur": c})
         for cond in ("present", "deleted_keep_sidecar", "header_only", "decoy_tmp_only"):
-            disk_case({"kind": "disk", "base": b or {"z": 0}, "cur": c, "cond": cond, "cut": 5}, sess)
+            disk_case({"kind": "disk", "base": b, "cur": c, "cond": cond, "cut": 5, "next": {"chain": [1, 2], **c}}, sess)
     U = universe()
     sess.extra["universe_objects"] = len(U)
     sess.extra["universe_pairs"] = len(U) * len(U)
@@ -364,11 +385,13 @@ def main(tier: str, seed: int):
     nr = 6000 if tier == "quick" else 60000
     for ex in par.pmap(_rand_chunk, [(tier, seed, i, nr // n) for i in range(n)]):
         sess.merge(ex)
-    nd = 100 if tier == "quick" else 3000
+    nd = 800 if tier == "quick" else 12000
     for ex in par.pmap(_disk_chunk, [(tier, seed, i, max(1, nd // n)) for i in range(n)]):
         sess.merge(ex)
     sess.require("roundtrips", 5000)
     sess.require("delta_files_written", 50)
+    sess.require("chain_third_snapshots", 60)
+    sess.require("disk_cases_with_empty_baseline_payload", 10)
     sess.require("disk_reads_present", 10)
     sess.require("disk_reads_deleted_keep_sidecar", 10)
     sess.finish()
